@@ -786,6 +786,80 @@ crossfile_case(long idx, void *ctx)
     mc_count("crossfile_cases", 1);
 }
 
+/* two files whose (long) paths agree in a long prefix: ids of the two never stand for the same file */
+static void
+longpath_case(long idx, void *ctx)
+{
+    (void)ctx;
+    static const int DIFF[] = {40, 200, 255, 256, 257, 299};
+    int dp = DIFF[idx % 6], order = (int)(idx / 6 % 2), second_create = (int)(idx / 12 % 2);
+    int cfg[4] = {-3, (int)(idx % 6), order, second_create};
+    mc_set_config(cfg, 4, "family=long paths");
+    mc_set_case("two 300-character paths that first differ at character %d; the %s one is opened first%s", dp, order ? "second" : "first",
+                second_create ? ", the other is created while it is open" : "");
+    char pa[320], pb[320];
+    memset(pa, 'x', 300);
+    memcpy(pa, "/vmem/", 6);
+    pa[300] = 0;
+    memcpy(pb, pa, 301);
+    pa[dp] = 'A';
+    pb[dp] = 'B';
+    vfs_remove_file(pa);
+    vfs_remove_file(pb);
+    uint8 da[4] = {1, 2, 3, 4}, db[6] = {9, 8, 7, 6, 5, 4}, got[8];
+    const char *p1 = order ? pb : pa, *p2 = order ? pa : pb;
+    const uint8 *d1 = order ? db : da, *d2 = order ? da : db;
+    int          l1 = order ? 6 : 4, l2 = order ? 4 : 6;
+    int32 f1 = Hopen(p1, DFACC_CREATE, 4);
+    if (f1 == FAIL || Hputelement(f1, 300, 1, d1, l1) != l1) {
+        mc_violation("longpath:create", "creating a file under a 300-character path failed");
+        return;
+    }
+    int32 f2;
+    if (second_create) {
+        f2 = Hopen(p2, DFACC_CREATE, 4);
+        if (f2 == FAIL) {
+            mc_violation("longpath:second-create-refused", "creating the second file while the first is open failed (paths differ at character %d)", dp);
+            Hclose(f1);
+            return;
+        }
+        if (Hputelement(f2, 300, 1, d2, l2) != l2)
+            mc_violation("longpath:put", "writing to the second file failed");
+    }
+    else {
+        if (Hclose(f1) == FAIL)
+            mc_violation("longpath:close", "Hclose failed");
+        f2 = Hopen(p2, DFACC_CREATE, 4);
+        if (f2 == FAIL || Hputelement(f2, 300, 1, d2, l2) != l2 || Hclose(f2) == FAIL) {
+            mc_violation("longpath:create", "creating the second file failed");
+            return;
+        }
+        f1 = Hopen(p1, DFACC_READ, 0);
+        f2 = Hopen(p2, DFACC_READ, 0);
+        if (f1 == FAIL || f2 == FAIL) {
+            mc_violation("longpath:open", "opening the two files failed");
+            return;
+        }
+    }
+    if (f1 == f2)
+        mc_violation("longpath:same-id", "the two files got the same id");
+    char *n1 = NULL, *n2 = NULL;
+    intn  a1, a2, t1, t2;
+    if (Hfidinquire(f1, &n1, &a1, &t1) == FAIL || Hfidinquire(f2, &n2, &a2, &t2) == FAIL || !n1 || !n2 || strcmp(n1, p1) || strcmp(n2, p2))
+        mc_violation("longpath:inquire-name", "Hfidinquire does not report the path each id was opened with");
+    memset(got, 0, sizeof got);
+    if (Hlength(f1, 300, 1) != l1 || Hgetelement(f1, 300, 1, got) != l1 || memcmp(got, d1, (size_t)l1))
+        mc_violation("longpath:wrong-file:first", "the id of the first file does not show that file's element (length %d, expected %d)", (int)Hlength(f1, 300, 1), l1);
+    memset(got, 0, sizeof got);
+    if (Hlength(f2, 300, 1) != l2 || Hgetelement(f2, 300, 1, got) != l2 || memcmp(got, d2, (size_t)l2))
+        mc_violation("longpath:wrong-file:second", "the id of the second file does not show that file's element (length %d, expected %d)", (int)Hlength(f2, 300, 1), l2);
+    if (Hclose(f1) == FAIL || Hclose(f2) == FAIL)
+        mc_violation("longpath:close", "closing the two files failed");
+    vfs_remove_file(pa);
+    vfs_remove_file(pb);
+    mc_count("longpath_cases", 1);
+}
+
 int
 C13_main(const char *tier, const char *replay)
 {
@@ -801,6 +875,10 @@ C13_main(const char *tier, const char *replay)
             return 2;
         if (cfg[0] == -2) {
             crossfile_case(cfg[1] + 2 * cfg[2] + 4 * cfg[3], NULL);
+            return 0;
+        }
+        if (cfg[0] == -3) {
+            longpath_case(cfg[1] + 6 * cfg[2] + 12 * cfg[3], NULL);
             return 0;
         }
         mc_set_config(cfg, 1, "family=%s", FAMN[cfg[0]]);
@@ -829,6 +907,9 @@ C13_main(const char *tier, const char *replay)
     }
     mc_round_begin("ids of two open files in one call");
     mc_foreach(8, crossfile_case, NULL, 1, 120);
+    mc_round_end();
+    mc_round_begin("two files under long paths with a common prefix");
+    mc_foreach(24, longpath_case, NULL, 1, 120);
     mc_round_end();
     return 0;
 }
